@@ -260,9 +260,18 @@ class Ref:
             raise make_boom(raising[0][1])
         return verdict
 
+    lenient_expr_reads = False
+
     def _eval_expr(self, e, g, raising):
         names = names_in(e)
         ref = self
+        if self.lenient_expr_reads:
+            # a provider attached late carries the expression as a conjunct of its own: operands
+            # that the per-name conjunction would skip may be read as well (the verdict is what
+            # is compared)
+            for key in names:
+                for p in self.m.providers_of(key):
+                    g.optional.setdefault((p, key), self._gval(p, key))
 
         class NS(dict):
             def __missing__(self, key):
